@@ -496,6 +496,8 @@ class Fn:
                 return ('fnref', strip_generics(c['fn']))
             if 'item' in c:
                 return ('item', c['item'])
+            if 'static' in c:
+                return ('item', c['static'])
             if 'float' in c:
                 return ('float', c['float'])
             if 'bytes' in c:
@@ -652,6 +654,8 @@ class Crate:
         self.adts = {a['path']: a for a in raw['adts']}
         self.impls = raw['impls']
         self.consts = {c['path']: c for c in raw['consts']}
+        for st in raw.get('statics', []):
+            self.consts.setdefault(st['path'], st)
 
     def fn(self, path):
         return self.by_path.get(path) or self.by_path.get(self.name + '::' + path)
@@ -880,22 +884,42 @@ class PathExplorer:
                     record = False
             out = []
             vals = [v for v, _ in t['ts']]
+            isbool = t.get('ty') == 'bool'
+
+            def enc(v):
+                return bool(v) if isbool else v
+
+            def known(c):
+                # value already decided for this condition on this path (int or bool), else None
+                for f in facts:
+                    if f[0] == c and not isinstance(f[1], tuple):
+                        return int(f[1])
+                return None
             for v, s in t['ts']:
                 if record:
                     if cond[0] == 'int' and cond[1] != v:
                         continue  # infeasible by constant folding
-                    if (cond, ('not', v)) in facts or any(f[0] == cond and isinstance(f[1], int) and f[1] != v for f in facts):
+                    kv = known(cond)
+                    if kv is not None and kv != v:
                         continue
-                    out.append((s, (facts | {(cond, v)}, env2)))
+                    if any(f[0] == cond and isinstance(f[1], tuple) and v in f[1][1:] for f in facts):
+                        continue
+                    out.append((s, (facts | {(cond, enc(v))}, env2)))
                 else:
                     out.append((s, (facts, env2)))
             if record:
+                kv = known(cond)
                 if cond[0] == 'int' and cond[1] in vals:
                     pass
-                elif any(f[0] == cond and isinstance(f[1], int) and f[1] in vals for f in facts):
+                elif kv is not None and kv in vals:
                     pass
                 else:
-                    nv = ('not',) + tuple(vals)
+                    if isbool and vals == [0]:
+                        nv = True
+                    elif isbool and vals == [1]:
+                        nv = False
+                    else:
+                        nv = ('not',) + tuple(vals)
                     out.append((t['o'], (facts | {(cond, nv)}, env2)))
             else:
                 out.append((t['o'], (facts, env2)))
@@ -904,17 +928,8 @@ class PathExplorer:
 
 
 def fact_holds(facts, pred):
-    """facts: set of (cond, value); pred(cond, truth) -> bool where truth is
-    True when the recorded value is non-zero.  Helper for bool conditions."""
     for cond, v in facts:
-        if isinstance(v, int):
-            truth = v != 0
-        else:
-            # otherwise-edge of a switch whose explicit values are listed in v[1:]
-            truth = (0 in v[1:])  # `not 0` == true for bool switches
-            if not truth:
-                continue
-        if pred(cond, truth):
+        if isinstance(v, bool) and pred(cond, v):
             return True
     return False
 
@@ -924,13 +939,9 @@ NEG = {'Lt': 'Ge', 'Ge': 'Lt', 'Gt': 'Le', 'Le': 'Gt', 'Eq': 'Ne', 'Ne': 'Eq'}
 
 
 def truth_of(v):
-    """truth value of a recorded bool switch decision, or None if not a bool decision"""
-    if isinstance(v, int):
-        return v != 0
-    if v[0] == 'not' and v[1:] == (0,):
-        return True
-    if v[0] == 'not' and v[1:] == (1,):
-        return False
+    """truth value of a recorded *bool* switch decision, or None for a discriminant / integer switch"""
+    if isinstance(v, bool):
+        return v
     return None
 
 
